@@ -1,1 +1,22 @@
-def main : IO Unit := pure ()
+/-
+  Line-protocol driver: one case per input line, one result line per case.
+  `<component> <args…>`; the C++ harness (harness/) answers the same lines by calling the real code.
+-/
+import PotasscoVerif.Drv.BufferedStream
+open PotasscoVerif.Drv
+
+def dispatch (line : String) : String :=
+  match words line with
+  | "bs" :: args => runBS args
+  | "as" :: args => runAS args
+  | _ => "bad-component"
+
+partial def loop (h : IO.FS.Stream) (out : IO.FS.Stream) : IO Unit := do
+  let line ← h.getLine
+  if line.isEmpty then return ()
+  out.putStrLn (dispatch line.trimAscii.toString)
+  loop h out
+
+def main : IO Unit := do
+  let out ← IO.getStdout
+  loop (← IO.getStdin) out
